@@ -117,9 +117,18 @@ def run(ctx):
     forests = binlib.gen_forests(ctx, ctx.scale(120, 3000), {"depth": 3})
     bdocs = binlib.encode_docs(ctx, forests, True)
     tdocs = [list(textgen.render(f, rng)) for f in forests[: ctx.scale(80, 2000)]]
+    # documents that END in a scalar larger than the buffer (4 KiB) / the read chunk (64 KiB): the final bytes then arrive
+    # through the large-read paths, possibly together with io.EOF
+    bigf = []
+    for n in (4000, 4096, 5000, 8192, 9000, 70000, 140000):
+        bigf.append([([], ("int", 1)), ([], ("str", b"s" * n))])
+        bigf.append([([], ("list", [([], ("int", 2))])), ([], ("blob", bytes(i % 253 for i in range(n))))])
+        bigf.append([([], ("struct", [(b"name", ([], ("clob", b"c" * n)))]))])
+    bigb = binlib.encode_docs(ctx, bigf, False)
+    bigt = [list(textgen.render(f, rng)) for f in bigf]
     # ---- chunking (real code only: chunk boundaries live inside bufio) ----
     lines, base = [], []
-    for d in bdocs + tdocs:
+    for d in bigb + bigt + bdocs + tdocs:
         h = iongen.hx(d)
         n = len(d)
         ref = "bchunk 0 0 0 " + h
